@@ -7,7 +7,7 @@
    earlier versions of the code (kept for the refuted statements).  Single promise: Join is not
    in this model. *)
 From CV Require Import Promise.Promise Promise.PromiseProofs Promise.PromiseStepProofs Promise.MuProofs
-  Promise.PromiseTheorems Promise.PromiseLive Promise.PromiseJoin Promise.PromiseJoinProofs.
+  Promise.PromiseTheorems Promise.PromiseLive Promise.PromiseProxies Promise.PromiseJoin Promise.PromiseJoinProofs.
 Open Scope Z_scope.
 
 (* the promise resolves at most once; Fulfill/Reject after the first one panics (OPanic), the
@@ -115,9 +115,18 @@ Theorem C11_result_lifetime_refuted :
 Proof. exact result_lifetime_refuted. Qed.
 Print Assumptions C11_result_lifetime_refuted.
 
-(* NOT proved: proxy_clients_resolved_and_released (every proxy handed out ends up with the result's
-   capability as target once Fulfill/Reject returned, and released once ReleaseClients returned);
-   checked by the correspondence run only.  Join / joined chains are not modelled. *)
+(* pipelined clients handed out earlier end up referring to the resolved capability (what the result holds
+   at their path) once Fulfill/Reject has returned, and are released once the ReleaseClients call that took
+   the table has returned (outcome ORet; calls that found it already taken return ONoop) *)
+Theorem C11_proxy_clients_resolved_and_released : forall ops c, reach fixed ops c ->
+  (forall t th, nth_error (threads c) t = Some th -> is_res_op (t_op th) = true -> t_pc th = PDone ->
+     t_out th = ORet ->
+     forall x px, nth_error (proxies c) x = Some px ->
+       px_target px = Some (res_dest (op_res (t_op th)) (px_path px))) /\
+  (forall t th, nth_error (threads c) t = Some th -> t_op th = ORelease -> t_pc th = PDone -> t_out th = ORet ->
+     forall x px, nth_error (proxies c) x = Some px -> px_rel px = true).
+Proof. exact proxy_clients_resolved_and_released. Qed.
+Print Assumptions C11_proxy_clients_resolved_and_released.
 
 (* no_stuck FAILS on the model of the code before the deadlock repair: a concrete deadlocked
    configuration (replayed on the real code at the time: corpus/C11-promise.txt) *)
